@@ -49,14 +49,16 @@ PROPERTIES = ["Immutable"]
 
 VIAS_ALL = ("handler", "wire", "stream", "chunked")
 SHAPES_ALL = ("single", "after", "before", "middle")
+OKINDS_ALL = ("handler", "wire", "stream", "chunked", "publish")
 
 
 def params(pcs=PCS_ALL, hcs=HCS_ALL, srcs=("ingress", "publish"), bes=("memory", "sqlite"), modes=("pull", "push"),
-           vias=VIAS_ALL, shapes=SHAPES_ALL, star=False, free=False, maxdeq=2, maxatt=2, maxrs=1, minend=0, tour=False):
+           vias=VIAS_ALL, shapes=SHAPES_ALL, star=False, free=False, maxdeq=2, maxatt=2, maxrs=1, minend=0, tour=False,
+           maxother=1, okinds=OKINDS_ALL, osizes=("same", "longer", "shorter")):
     consts = {"Srcs": set(srcs), "PCs": set(pcs), "HCs": set(hcs), "Bes": set(bes), "ModesC": set(modes), "Vias": set(vias),
-              "Shapes": set(shapes)}
+              "Shapes": set(shapes), "OKinds": set(okinds), "OSizes": set(osizes)}
     plain = {"Star": star, "CentrePC": "text", "CentreHC": "plain", "FreeRoute": free, "MaxDeq": maxdeq, "MaxAtt": maxatt,
-             "MaxRs": maxrs, "MinEnd": minend, "UseTour": tour}
+             "MaxRs": maxrs, "MinEnd": minend, "UseTour": tour, "MaxOther": maxother}
     return consts, plain
 
 
@@ -166,10 +168,10 @@ def validate(ctx, files, tag):
 
 # ------------------------------------------------------------------ triage
 
-PAYLOAD_CHECKS = {"payload", "encoding", "dump_payload", "stored_payload", "oversize", "companion"}
+PAYLOAD_CHECKS = {"held", "noise", "payload", "encoding", "dump_payload", "stored_payload", "oversize", "companion"}
 HEADER_CHECKS = {"headers", "dump_headers", "stored_headers", "sensitive", "dump_sensitive", "stored_sensitive", "pushhdr",
                  "persisted_secret", "dump_trace", "stored_trace", "sibling", "stored_sibling"}
-STORE_CHECKS = {"dump_count", "dump_payload", "dump_headers", "dump_sensitive", "stored_count", "stored_payload", "stored_headers",
+STORE_CHECKS = {"noise", "dump_count", "dump_payload", "dump_headers", "dump_sensitive", "stored_count", "stored_payload", "stored_headers",
                 "stored_sensitive", "refused_not_stored", "emptystore", "persisted_secret", "dump_trace", "stored_trace", "sibling",
                 "stored_sibling"}
 
@@ -185,7 +187,7 @@ def signature(check, e, start):
     c = start["c"]
     ev = e.get("ev")
     if check in STORE_CHECKS:
-        channel = "store-" + c["be"]
+        channel = "store-" + c["be"] + ("-after-other-" + e["a"]["k"] if ev == "Other" else "")
     elif ev == "Submit":
         channel = c["src"] if c["src"] == "publish" else "ingress-" + c["via"]
     elif ev == "Deq":
@@ -194,6 +196,8 @@ def signature(check, e, start):
         channel = "admin-" + e["a"]["which"]
     elif ev == "Push":
         channel = "push"
+    elif ev == "Other":
+        channel = "other-" + e["a"]["k"]
     else:
         channel = ev.lower()
     if check in ("sibling", "stored_sibling", "dump_trace", "stored_trace"):
@@ -317,16 +321,18 @@ def tally(ctx, files):
     """Counters over what the real runs actually did."""
     C = collections.Counter()
     for f in files:
-        cur, after_restart, after_expire, pushes, after_op = None, False, False, 0, ""
+        cur, after_restart, after_expire, pushes, after_op, after_other = None, False, False, 0, "", False
         for line in open(f):
             e = json.loads(line)
             ev = e["ev"]
             if ev == "Start":
-                cur, after_restart, after_expire, pushes, after_op = e["c"], False, False, 0, ""
+                cur, after_restart, after_expire, pushes, after_op, after_other = e["c"], False, False, 0, "", False
                 cur["_recv"] = e["recv"]
                 C["journeys"] += 1
                 continue
             c = cur
+            if e.get("held", {}).get("n"):
+                C["held_result_rechecked/%s" % c["be"]] += 1
             if ev == "Submit":
                 ok = 200 <= e["r"]["status"] <= 299
                 C["submit/%s/%s" % (c["src"], "accepted" if ok else "refused")] += 1
@@ -363,6 +369,8 @@ def tally(ctx, files):
                         C["observed_after_restart"] += 1
                     if after_op:
                         C["obs_after/%s/%s/%s" % (after_op, ch, c["be"])] += 1
+                    if after_other:
+                        C["obs_after_other/%s/%s" % (ch, c["be"])] += 1
                     if ev in ("Deq", "Push"):
                         b = e["a"].get("b", "one")
                         if b == "pair" and e["r"]["k"]["n"] < 1:
@@ -395,6 +403,11 @@ def tally(ctx, files):
                     C["dlq_requeue"] += 1
             elif ev == "LeaseOp":
                 C["leaseop/%s/%s/%s" % (e["a"]["kind"], e["a"]["ch"], e["a"].get("form", "single"))] += 1
+            elif ev == "Other":
+                if e["r"]["accepted"] > 0:
+                    C["other/%s/%s/%s" % (e["a"]["k"], e["a"]["sz"], c["be"])] += 1
+                    C["other_while/%s" % (e["dump"][0]["st"] if e["dump"] else "-")] += 1
+                    after_other = True
             elif ev == "Extend":
                 if e["r"]["ok"]:
                     C["lease_extended/%s" % e["a"]["ch"]] += 1
@@ -446,6 +459,10 @@ def non_vacuity(ctx, C, pcs):
     require(C, ["pubshape/%s/%s" % (p, be) for p in SHAPES_ALL for be in ("memory", "sqlite")]
             + ["pub_bare_after_headers/%s" % be for be in ("memory", "sqlite")]
             + ["pub_headers_before_bare/%s" % be for be in ("memory", "sqlite")], "publish batch shapes")
+    require(C, ["other/%s/%s/%s" % (k, z, be) for k in OKINDS_ALL for z in ("same", "longer", "shorter") for be in ("memory", "sqlite")]
+            + ["other_while/%s" % x for x in ("queued", "leased", "dead", "canceled", "delivered")]
+            + ["obs_after_other/%s/%s" % (ch, be) for ch in ("http", "grpc", "inproc", "push", "admin-messages") for be in ("memory", "sqlite")]
+            + ["held_result_rechecked/memory", "held_result_rechecked/sqlite"], "unrelated traffic between the steps of a journey")
     require(C, ["restart_with_message", "observed_after_restart", "redelivered_pull", "redelivered_push", "redelivered_after_expiry",
                 "lease_expired", "dlq_requeue", "push_after_dlq_requeue", "inproc_result_scribbled", "copy_collision",
                 "forward_auth_called", "refused_nothing_stored", "scan_with_secrets/sqlite", "scan_with_secrets/memory"],
@@ -483,24 +500,25 @@ def run(ctx):
     jobs = []
     if quick:
         jobs.append(("mc", lambda: run_mc(ctx, "all-inputs", pcs=PCS_ALL, maxdeq=2, maxatt=2, maxrs=1, workers=w)))
-        jobs.append(("tour", lambda: gen(ctx, "tour", "tour", pcs=pcs, star=True, maxdeq=9, maxatt=7, maxrs=3, workers=4)))
-        jobs.append(("edges", lambda: gen(ctx, "edges", "edges", pcs=["all256"], hcs=["plain", "sensmix"], vias=["handler"],
-                                          shapes=["single"], maxdeq=2, maxatt=2, maxrs=1, workers=4)))
-        jobs.append(("sim", lambda: gen(ctx, "sim", "sim", depth=14, simulate=150, pcs=pcs, free=True, maxdeq=8, maxatt=8, maxrs=3,
-                                        minend=3)))
+        jobs.append(("tour", lambda: gen(ctx, "tour", "tour", pcs=pcs, star=True, maxdeq=9, maxatt=7, maxrs=3, maxother=12, workers=4)))
+        jobs.append(("edges", lambda: gen(ctx, "edges", "edges", pcs=["all256"], hcs=["sensmix"], srcs=["ingress"], vias=["handler"],
+                                          shapes=["single"], maxdeq=2, maxatt=2, maxrs=1, maxother=1, okinds=["handler"],
+                                          osizes=["longer"], workers=4)))
+        jobs.append(("sim", lambda: gen(ctx, "sim", "sim", depth=16, simulate=150, pcs=pcs, free=True, maxdeq=8, maxatt=8, maxrs=3,
+                                        maxother=6, minend=3)))
     else:
         jobs.append(("mc", lambda: run_mc(ctx, "all-inputs-free", pcs=PCS_ALL, free=True, maxdeq=3, maxatt=3, maxrs=2, timeout=1500,
                                           workers=w)))
-        jobs.append(("tour", lambda: gen(ctx, "tour", "tour", pcs=pcs, star=False, free=False, maxdeq=9, maxatt=7, maxrs=3, workers=4,
-                                         timeout=1500)))
+        jobs.append(("tour", lambda: gen(ctx, "tour", "tour", pcs=pcs, star=False, free=False, maxdeq=9, maxatt=7, maxrs=3, maxother=12,
+                                         workers=4, timeout=1500)))
         jobs.append(("tourfree", lambda: gen(ctx, "tourfree", "tour", pcs=["text", "all256", "empty", "max"],
                                              hcs=["none", "plain", "sensmix", "repcase", "values2", "collide", "hmax"], star=False, free=True,
-                                             maxdeq=9, maxatt=7, maxrs=3, workers=4, timeout=1500)))
+                                             maxdeq=9, maxatt=7, maxrs=3, maxother=12, workers=4, timeout=1500)))
         jobs.append(("edges", lambda: gen(ctx, "edges", "edges", pcs=["empty", "all256", "max"], hcs=["none", "plain", "sensmix", "collide"],
                                           vias=["handler", "chunked"], shapes=["single", "middle"], maxdeq=2, maxatt=2, maxrs=1,
-                                          workers=4, timeout=1500)))
+                                          maxother=1, okinds=["handler", "publish"], osizes=["longer"], workers=4, timeout=1500)))
         jobs.append(("sim", lambda: gen(ctx, "sim", "sim", depth=24, simulate=2000, pcs=pcs, free=True, maxdeq=12, maxatt=12, maxrs=4,
-                                        minend=4, timeout=1500)))
+                                        maxother=10, minend=4, timeout=1500)))
     with cf.ThreadPoolExecutor(max_workers=len(jobs)) as ex:
         futs = [(tag, ex.submit(fn)) for tag, fn in jobs]
         outs = [(tag, f.result()) for tag, f in futs]
